@@ -26,6 +26,23 @@ var c31SetMembers = [][]string{{"10.0.0.1"}, {"10.0.0.1", "10.0.0.2"}}
 var c31PolRefs = map[string][][]string{
 	"P1": {{}, {"S1"}, {"S2"}},
 	"P2": {{"S1"}},
+	// N1 is a NetworkPolicy ns1/P1: same NAME as the global policy P1, different kind and namespace
+	"N1": {{"S2"}},
+}
+
+// c31PID maps a harness policy id to its wire id; c31HID maps back.
+func c31PID(id string) *proto.PolicyID {
+	if id == "N1" {
+		return &proto.PolicyID{Name: "P1", Namespace: "ns1", Kind: "NetworkPolicy"}
+	}
+	return &proto.PolicyID{Name: id, Kind: "GlobalNetworkPolicy"}
+}
+
+func c31HID(p *proto.PolicyID) string {
+	if p.GetKind() == "NetworkPolicy" {
+		return "N1"
+	}
+	return p.GetName()
 }
 var c31ProfRefs = map[string][][]string{
 	"PR1": {{}, {"S2"}},
@@ -44,6 +61,7 @@ var c31EpVars = map[string][]c31EpVar{
 		{in: []string{"P2"}, profs: []string{"PR1"}},
 		{profs: []string{"PR1"}},
 		{in: []string{"P1"}, eg: []string{"P1"}, profs: []string{"PR1"}},
+		{in: []string{"P1"}, eg: []string{"N1"}},
 	},
 	"W2": {
 		{in: []string{"P1"}, profs: []string{"PR1"}},
@@ -61,7 +79,7 @@ func c31Policy(name string, v int) *proto.Policy {
 			r.NotDstIpSetIds = append(r.NotDstIpSetIds, s)
 		}
 	}
-	if name == "P2" {
+	if name == "P2" || name == "N1" {
 		p.OutboundRules = []*proto.Rule{r}
 	} else {
 		p.InboundRules = []*proto.Rule{r}
@@ -84,10 +102,10 @@ func c31Endpoint(w string, v int) *proto.WorkloadEndpointUpdate {
 	if len(ev.in)+len(ev.eg) > 0 {
 		t := &proto.TierInfo{Name: "default"}
 		for _, p := range ev.in {
-			t.IngressPolicies = append(t.IngressPolicies, &proto.PolicyID{Name: p, Kind: "GlobalNetworkPolicy"})
+			t.IngressPolicies = append(t.IngressPolicies, c31PID(p))
 		}
 		for _, p := range ev.eg {
-			t.EgressPolicies = append(t.EgressPolicies, &proto.PolicyID{Name: p, Kind: "GlobalNetworkPolicy"})
+			t.EgressPolicies = append(t.EgressPolicies, c31PID(p))
 		}
 		ep.Tiers = []*proto.TierInfo{t}
 	}
@@ -143,10 +161,10 @@ func (cl *c31Client) epPolicies() map[string]bool {
 	out := map[string]bool{}
 	for _, t := range cl.ep.GetTiers() {
 		for _, p := range t.IngressPolicies {
-			out[p.Name] = true
+			out[c31HID(p)] = true
 		}
 		for _, p := range t.EgressPolicies {
-			out[p.Name] = true
+			out[c31HID(p)] = true
 		}
 	}
 	return out
@@ -197,12 +215,12 @@ func (cl *c31Client) apply(m *proto.ToDataplane) []string {
 		c31RuleRefs(pl.ActivePolicyUpdate.Policy.OutboundRules, refs)
 		for s := range refs {
 			if _, ok := cl.sets[s]; !ok {
-				f("policy-references-unsent-ipset", "ActivePolicyUpdate %s references IP set %s not yet sent", pl.ActivePolicyUpdate.Id.Name, s)
+				f("policy-references-unsent-ipset", "ActivePolicyUpdate %s references IP set %s not yet sent", c31HID(pl.ActivePolicyUpdate.Id), s)
 			}
 		}
-		cl.pols[pl.ActivePolicyUpdate.Id.Name] = pl.ActivePolicyUpdate.Policy
+		cl.pols[c31HID(pl.ActivePolicyUpdate.Id)] = pl.ActivePolicyUpdate.Policy
 	case *proto.ToDataplane_ActivePolicyRemove:
-		id := pl.ActivePolicyRemove.Id.Name
+		id := c31HID(pl.ActivePolicyRemove.Id)
 		if _, ok := cl.pols[id]; !ok {
 			f("remove-of-unknown-policy", "ActivePolicyRemove %s never sent", id)
 		}
@@ -414,7 +432,7 @@ func c31Enabled(s *c31State, depth int) []string {
 			evs = append(evs, "set:"+id+":remove")
 		}
 	}
-	for _, id := range []string{"P1", "P2"} {
+	for _, id := range []string{"P1", "P2", "N1"} {
 		cur, ok := s.pols[id]
 		for v, refs := range c31PolRefs[id] {
 			if ok && cur == v && len(c31PolRefs[id]) > 1 {
@@ -543,7 +561,7 @@ func c31Apply(s *c31State, e string) {
 		}
 	case "pol":
 		id := f[1]
-		pid := &proto.PolicyID{Name: id, Kind: "GlobalNetworkPolicy"}
+		pid := c31PID(id)
 		if f[2] == "remove" {
 			delete(s.pols, id)
 			p.handleDataplane(&proto.ActivePolicyRemove{Id: pid})
@@ -760,7 +778,7 @@ func c31Key(s *c31State) string {
 			fmt.Fprintf(&sb, "ei:out=%v,uid0=%v,upd=%v,", ei.output != nil, ei.currentJoinUID == 0, ei.endpointUpd != nil)
 			var a []string
 			for k, v := range ei.syncedPolicies {
-				a = append(a, fmt.Sprint("pol:", k.Name, v))
+				a = append(a, fmt.Sprint("pol:", k.Kind, k.Namespace, k.Name, v))
 			}
 			for k, v := range ei.syncedProfiles {
 				a = append(a, fmt.Sprint("prof:", k.Name, v))
